@@ -54,3 +54,18 @@ Fixpoint g_for_n {S} (n : nat) (i : Z) (st : S) (body : Z -> S -> R S) : R S :=
 Definition g_for {S} (lo hi : Z) (st : S) (body : Z -> S -> R S) : R S := g_for_n (Z.to_nat (hi - lo)) lo st body.
 
 Definition g_byte (z : Z) : byte := Z.to_N z.
+
+(* make([]byte, n) *)
+Definition g_make (n : Z) : R bytes := if n <? 0 then Pan else Val (repeat 0%N (Z.to_nat n)).
+(* s[i] = v *)
+Definition g_set (s : bytes) (i v : Z) : R bytes :=
+  if (i <? 0) || (g_len s <=? i) then Pan else Val (upd s (Z.to_nat i) (g_byte v)).
+(* binary.BigEndian.PutUint16(s[a:], v): the two bytes at a, a+1 *)
+Definition g_put16 (s : bytes) (a v : Z) : R bytes :=
+  if (a <? 0) || (g_len s <? a + 2) then Pan
+  else Val (upd (upd s (Z.to_nat a) (g_byte ((v / 256) mod 256))) (Z.to_nat a + 1) (g_byte (v mod 256))).
+(* copy(s[a:], y): as many bytes as fit *)
+Definition g_copy (s : bytes) (a : Z) (y : bytes) : R bytes :=
+  if (a <? 0) || (g_len s <? a) then Pan
+  else let k := Nat.min (length y) (length s - Z.to_nat a) in
+       Val (firstn (Z.to_nat a) s ++ firstn k y ++ skipn (Z.to_nat a + k) s).
